@@ -5,7 +5,12 @@ REPO ?= /repo
 
 .PHONY: setup gen coq coqproject extract driver clean all
 all: setup
-setup: gen coq driver
+# setup never fails because of a Coq file that does not compile: each check re-compiles its own Props file and reports a
+# broken obligation itself (a failing proof under a changed /repo is a finding of that check, not a broken setup)
+setup: gen
+	-$(MAKE) coq
+	-$(MAKE) driver
+	@echo setup done
 
 gen:
 	python3 tools/gen.py --repo $(REPO) || true
